@@ -242,4 +242,88 @@ theorem fromFiles_read (rules : List Rule) (m : Mul) (h : Heap) :
   rw [this, read_block (fun _ => true) (scaleRule m) rules h]
   rfl
 
+theorem lookup_append_new {α β} [BEq α] (k : α) (v : β) : ∀ (c : List (α × β)), c.lookup k = none → (k == k) = true →
+    (c ++ [(k, v)]).lookup k = some v := by
+  intro c
+  induction c with
+  | nil => intro _ hk; simp [List.lookup, hk]
+  | cons p ps ih =>
+    intro h hk
+    obtain ⟨a, b⟩ := p
+    simp only [List.cons_append, List.lookup] at h ⊢
+    split at h
+    · cases h
+    · exact ih h hk
+
+/-- asking again for what was just handed out is a cache hit: the same ruleset, nothing changes -/
+theorem getRuleset_again (parsed : String → Except Err (List Rule)) (q : Req) (st st' : State) (rs : RS)
+    (h : getRuleset parsed q st = .ok (rs, st')) : getRuleset parsed q st' = .ok (rs, st') := by
+  unfold getRuleset at h ⊢
+  simp only [bind_ok] at h
+  obtain ⟨mul, hmul, h⟩ := h
+  simp only [hmul, bind, Except.bind]
+  split at h
+  · rename_i rs0 hl
+    cases h
+    simp [hl, pure, Except.pure]
+  · rename_i hl
+    simp only [bind_ok] at h
+    obtain ⟨rules, hp, h⟩ := h
+    simp only [pure, Except.pure] at h
+    cases h
+    simp only []
+    rw [lookup_append_new _ _ _ hl (by simp)]
+    rfl
+
+/-- `check_options` found no issue: the multipliers are positive, the requested names are rules of
+    the strictness, the categories are known, and the ruleset `get_ruleset` will hand to the run is
+    built and cached -/
+theorem checkOptions_ok (parsed : String → Except Err (List Rule)) (allCats : List String) (q : Req)
+    (st st' : State) (h : checkOptions parsed allCats q st = .ok (true, st')) :
+    ∃ rs rules, getRuleset parsed q st = .ok (rs, st') ∧ getRuleset parsed q st' = .ok (rs, st') ∧
+      parsed q.strictness = .ok rules ∧ 0 < q.cmul.1 ∧ 0 < q.nmul.1 ∧
+      (∀ n ∈ q.names, ∃ r ∈ rules, r.name = n) ∧ ∀ c ∈ q.cats, c ∈ allCats := by
+  unfold checkOptions at h
+  simp only [bind_ok] at h
+  obtain ⟨rules, hp, h⟩ := h
+  split at h
+  · simp [pure, Except.pure] at h
+  · rename_i hbad
+    simp only [Bool.or_eq_true, decide_eq_true_eq, not_or, List.any_eq_true, Bool.not_eq_true', not_exists, not_and,
+      Bool.not_eq_false] at hbad
+    obtain ⟨⟨⟨hc, hn⟩, hnames⟩, hcats⟩ := hbad
+    cases hg : getRuleset parsed q st with
+    | error e =>
+      rw [hg] at h
+      cases e <;> simp [pure, Except.pure] at h
+    | ok v =>
+      obtain ⟨rs, st1⟩ := v
+      rw [hg] at h
+      simp only [pure, Except.pure, Except.ok.injEq, Prod.mk.injEq, true_and] at h
+      subst h
+      refine ⟨rs, rules, rfl, getRuleset_again parsed q st st1 rs hg, hp, by omega, by omega, ?_, ?_⟩
+      · intro n hn'
+        have := hnames n hn'
+        simpa using this
+      · intro c hc'
+        have := hcats c hc'
+        simpa using this
+
+/-- `check_options` reported an issue: nothing was cached -/
+theorem checkOptions_bad (parsed : String → Except Err (List Rule)) (allCats : List String) (q : Req)
+    (st st' : State) (h : checkOptions parsed allCats q st = .ok (false, st')) : st' = st := by
+  unfold checkOptions at h
+  simp only [bind_ok] at h
+  obtain ⟨rules, hp, h⟩ := h
+  split at h
+  · simp only [pure, Except.pure, Except.ok.injEq, Prod.mk.injEq, true_and] at h; exact h.symm
+  · cases hg : getRuleset parsed q st with
+    | error e =>
+      rw [hg] at h
+      cases e <;> simp [pure, Except.pure] at h
+      exact h.symm
+    | ok v =>
+      rw [hg] at h
+      simp [pure, Except.pure] at h
+
 end ASV.Rulesets
